@@ -9,19 +9,19 @@ import LalModel.Proof.GoOk
 namespace Lal.SeqHeader
 open Lal Lal.Nalu
 
-theorem avcParse_np (p : Bytes) : NoPanic (avcParse p) := by
+theorem avcParse_np (p : Bytes) : NoPanicB (avcParse p) := by
   unfold avcParse; np_norm; np
 
-theorem avcParseLists_np (p : Bytes) : NoPanic (avcParseLists p) := by
+theorem avcParseLists_np (p : Bytes) : NoPanicB (avcParseLists p) := by
   unfold avcParseLists
   repeat' split
-  all_goals first | exact NoPanic.err | exact NoPanic.ok _
+  all_goals first | exact NoPanicB.err | exact NoPanicB.ok _
 
-theorem avcSeqHeader2Annexb_np (p : Bytes) : NoPanic (avcSeqHeader2Annexb p) := by
+theorem avcSeqHeader2Annexb_np (p : Bytes) : NoPanicB (avcSeqHeader2Annexb p) := by
   have := avcParseLists_np p
   unfold avcSeqHeader2Annexb; np_norm; np
 
-theorem hevcParseRecord_np (p : Bytes) : NoPanic (hevcParseRecord p) := by
+theorem hevcParseRecord_np (p : Bytes) : NoPanicB (hevcParseRecord p) := by
   unfold hevcParseRecord; np_norm; np
 
 theorem indexSc4_bound : ∀ (b : Bytes) (i r : Nat), indexSc4 b i = some r → i ≤ r ∧ (r - i) + 4 ≤ b.length := by
@@ -41,10 +41,10 @@ theorem indexSc4_bound : ∀ (b : Bytes) (i r : Nat), indexSc4 b i = some r → 
       simp only [List.length_cons]
       constructor <;> omega
 
-theorem hevcAnnexbLoop_np (p : Bytes) : ∀ (fuel i : Nat) (acc : Bytes × Bytes × Bytes), NoPanic (hevcAnnexbLoop p fuel i acc) := by
+theorem hevcAnnexbLoop_np (p : Bytes) : ∀ (fuel i : Nat) (acc : Bytes × Bytes × Bytes), NoPanicB (hevcAnnexbLoop p fuel i acc) := by
   intro fuel
   induction fuel with
-  | zero => intro i acc; exact NoPanic.ok _
+  | zero => intro i acc; exact NoPanicB.ok _
   | succ f ih =>
     intro i acc
     obtain ⟨vps, sps, pps⟩ := acc
@@ -52,7 +52,7 @@ theorem hevcAnnexbLoop_np (p : Bytes) : ∀ (fuel i : Nat) (acc : Bytes × Bytes
     by_cases hc : i + 4 < p.length
     · simp only [hc, not_true_eq_false, if_false]
       cases hs : indexSc4 (p.drop i) 0 with
-      | none => exact NoPanic.ok _
+      | none => exact NoPanicB.ok _
       | some start =>
         obtain ⟨_, hb⟩ := indexSc4_bound _ _ _ hs
         simp only [List.length_drop, Nat.sub_zero] at hb
@@ -63,7 +63,7 @@ theorem hevcAnnexbLoop_np (p : Bytes) : ∀ (fuel i : Nat) (acc : Bytes × Bytes
           refine ⟨_, by simp only [slice?]; rw [if_pos (by omega)], ?_⟩
           simp only [List.length_take, List.length_drop]; omega
         have fin : ∀ endv, 4 ≤ endv → i + start + endv ≤ p.length →
-            NoPanic (match slice? "hevc.annexb nal" p (i + start + 4) (i + start + endv) with
+            NoPanicB (match slice? "hevc.annexb nal" p (i + start + 4) (i + start + endv) with
               | Except.error e => Except.error e
               | Except.ok nal =>
                 if List.isEmpty nal = true then hevcAnnexbLoop p f (i + start + endv) (vps, sps, pps)
@@ -95,32 +95,32 @@ theorem hevcAnnexbLoop_np (p : Bytes) : ∀ (fuel i : Nat) (acc : Bytes × Bytes
           obtain ⟨_, hb2⟩ := indexSc4_bound _ _ _ he
           simp only [List.length_drop, Nat.sub_zero] at hb2
           exact fin (e + 4) (by omega) (by omega)
-    · simp only [hc, not_false_eq_true, if_true]; exact NoPanic.ok _
+    · simp only [hc, not_false_eq_true, if_true]; exact NoPanicB.ok _
 
-theorem hevcParseAnnexbRecord_np (p : Bytes) : NoPanic (hevcParseAnnexbRecord p) := by
+theorem hevcParseAnnexbRecord_np (p : Bytes) : NoPanicB (hevcParseAnnexbRecord p) := by
   have := hevcAnnexbLoop_np p (p.length + 1) 0 ([], [], [])
   unfold hevcParseAnnexbRecord; np_norm; np
 
-theorem hevcParse_np (p : Bytes) : NoPanic (hevcParse p) := by
+theorem hevcParse_np (p : Bytes) : NoPanicB (hevcParse p) := by
   have h1 := hevcParseRecord_np p
   have h2 := hevcParseAnnexbRecord_np p
   unfold hevcParse; np_norm; np
 
-theorem hevcParseEnhanced_np (p : Bytes) : NoPanic (hevcParseEnhanced p) := by
+theorem hevcParseEnhanced_np (p : Bytes) : NoPanicB (hevcParseEnhanced p) := by
   have h1 := hevcParseRecord_np p
   unfold hevcParseEnhanced; np_norm; np
 
-theorem hevcSeqHeader2Annexb_np (p : Bytes) : NoPanic (hevcSeqHeader2Annexb p) := by
+theorem hevcSeqHeader2Annexb_np (p : Bytes) : NoPanicB (hevcSeqHeader2Annexb p) := by
   have := hevcParse_np p
   unfold hevcSeqHeader2Annexb; np_norm; np
 
-theorem hevcEnhancedSeqHeader2Annexb_np (p : Bytes) : NoPanic (hevcEnhancedSeqHeader2Annexb p) := by
+theorem hevcEnhancedSeqHeader2Annexb_np (p : Bytes) : NoPanicB (hevcEnhancedSeqHeader2Annexb p) := by
   have := hevcParseEnhanced_np p
   unfold hevcEnhancedSeqHeader2Annexb; np_norm; np
 
 end Lal.SeqHeader
 
 namespace Lal.Aac
-theorem ascUnpack_np (b : Bytes) : NoPanic (ascUnpack b) := by
-  unfold ascUnpack; split <;> first | exact NoPanic.ok _ | exact NoPanic.err
+theorem ascUnpack_np (b : Bytes) : NoPanicB (ascUnpack b) := by
+  unfold ascUnpack; split <;> first | exact NoPanicB.ok _ | exact NoPanicB.err
 end Lal.Aac
